@@ -1,9 +1,11 @@
 package gosym
 
 import (
+	"os"
 	"testing"
 
 	"verif/harness/selftest"
+	zzrt "verif/harness/zzrt"
 )
 
 func loadSelftest(t *testing.T) (*Program, *Engine) {
@@ -42,5 +44,51 @@ func TestSelfConcrete(t *testing.T) {
 		if gs != want {
 			t.Errorf("%s:\n native: %s\n engine: %s", name, want, gs)
 		}
+	}
+}
+
+func TestSelfSymbolic(t *testing.T) {
+	prog, err := Load("/verif", nil, []string{"verif/harness/selftest"}, []string{"GOFLAGS=-mod=mod", "GOPROXY=off", "GOSUMDB=off"})
+	if err != nil {
+		t.Fatal(err)
+	}
+	for _, solver := range []string{"z3", "z3-new", "cvc5"} {
+		cfg := &Config{MaxSteps: 50000000, MaxDepth: 5000, MaxFork: 64, SolverKind: solver, TimeoutMs: 5000, InitAllow: DefaultInitAllow}
+		pool, err := NewPool(prog.Prog, cfg, prog.Pkgs, 4)
+		if err != nil {
+			t.Fatal(err)
+		}
+		for name, native := range selftest.Sym() {
+			if only := os.Getenv("SELF"); only != "" && only != name {
+				continue
+			}
+			fn := FindFunc(prog.Prog, "verif/harness/selftest", name)
+			res := pool.Explore(fn, nil, ExploreOpts{Workers: 4, MaxViolations: 3})
+			bad := res.Outcomes["violation"] + res.Outcomes["panic"] + res.Outcomes["fatal"]
+			t.Logf("%s %s: paths=%d queries=%d outcomes=%v covers=%v", solver, name, res.Paths, res.Queries, res.Outcomes, res.Covers)
+			if len(res.Inconclusive) > 0 || len(res.SolverErrors) > 0 {
+				t.Errorf("%s %s: inconclusive: %v %v", solver, name, res.Inconclusive, res.SolverErrors)
+			}
+			if name[0] == 'S' {
+				if bad != 0 {
+					t.Errorf("%s %s: unexpected violation: %+v", solver, name, res.Violations[0])
+				}
+				continue
+			}
+			if bad == 0 {
+				t.Errorf("%s %s: expected a violation, found none", solver, name)
+				continue
+			}
+			// replay natively
+			v := res.Violations[0]
+			zzrt.SetModel(map[string]uint64(v.Model))
+			out := zzrt.Run(name, native)
+			if out == "ok" || len(out) > 12 && out[:13] == "ASSUME-FAILED" {
+				t.Errorf("%s %s: model %v does not reproduce natively: %s (engine: %s)", solver, name, v.Model, out, v.Msg)
+			} else {
+				t.Logf("   replayed: %s with %v", out, v.Model)
+			}
+		}
+		pool.Close()
 	}
 }
